@@ -322,3 +322,10 @@ func (p *Scripted) handle(s network.Stream) {
 		s.Reset() //nolint:errcheck
 	}
 }
+
+// FrameResp encodes one HeaderResponse with its length prefix.
+func FrameResp(r *p2p_pb.HeaderResponse) []byte {
+	var sb sliceWriter
+	_, _ = serde.Write(&sb, r)
+	return sb.b
+}
